@@ -353,6 +353,20 @@ def body_lists(c, ctx):
         ctx.close('asm_list_bilinear', Al.toarray(), Ad, 1e-11, 1 + np.abs(Ad).max(), **sig)
     Apairs = sum(BilinearForm(form2).assemble(ubs[k], vbs[k]).toarray() for k in range(len(parts)))
     ctx.close('partition_sum', Apairs, Ad, 1e-11, 1 + np.abs(Ad).max(), **sig)
+    # ---- the same with a coefficient handed over as a raw DOF vector (each block interpolates it on its own cells)
+    cvec = VALS[rng.randint(0, len(VALS), vb.N)]
+
+    def wform1(v, w):
+        return gi.comps(w['cf'].value)[0] * gi.comps(v.value)[0]
+
+    def wform0(w):
+        return gi.comps(w['cf'].value)[0] ** 2
+    bw = LinearForm(wform1).assemble(vb, cf=cvec.copy())
+    bwl = asm(LinearForm(wform1), vbs, cf=cvec.copy())
+    ctx.close('asm_list_vector_parameter', np.asarray(bwl), bw, 1e-11, 1 + np.abs(bw).max(), **sig)
+    Jw = Functional(wform0).assemble(vb, cf=cvec.copy())
+    Jwl = asm(Functional(wform0), vbs, cf=cvec.copy())
+    ctx.close('asm_list_vector_parameter', float(Jwl), float(Jw), 1e-11, 1 + abs(Jw), **sig)
     # ---- COOData algebra
     coo = BilinearForm(form2).elemental(ub, vb)
     ctx.close('coo_toarray', coo.toarray(), Ad, 1e-12, 1 + np.abs(Ad).max(), **sig)
